@@ -53,7 +53,7 @@ def reassign_ok(assign, best):
 
 
 # ----------------------------------------------------------------------------------------------- (B)
-def build_mps(torch, C, precs, seed, kind, counts=None):
+def build_mps(torch, C, precs, seed, kind, counts=None, **mps_kw):
     import torch.nn as nn
     from plinio.methods import MPS
     from plinio.methods.mps import MPSType, get_default_qinfo
@@ -68,6 +68,22 @@ def build_mps(torch, C, precs, seed, kind, counts=None):
     elif kind == 'conv3pair':      # two 3x3 convolutions of the same width (the crafted counts apply to both)
         net = nn.Sequential(nn.Conv2d(3, C, 3, padding=1), nn.ReLU(), nn.Conv2d(C, C, 3, padding=1), nn.ReLU(), nn.AdaptiveAvgPool2d(1), nn.Flatten(), nn.Linear(C, 10))
         shape = (3, 6, 6)
+    elif kind == 'res':            # two 3x3 convolutions joined by a residual add (one sharing group)
+        class Res(nn.Module):
+            def __init__(self):
+                super().__init__()
+                self.c0 = nn.Conv2d(3, C, 3, padding=1)
+                self.c1 = nn.Conv2d(C, C, 3, padding=1)
+                self.c2 = nn.Conv2d(C, C, 3, padding=1)
+                self.pool = nn.AdaptiveAvgPool2d(1)
+                self.fc = nn.Linear(C, 4)
+
+            def forward(self, x):
+                a = torch.relu(self.c0(x))
+                b = torch.relu(self.c1(a))
+                return self.fc(self.pool(torch.relu(self.c2(b) + a)).flatten(1))
+        net = Res()
+        shape = (3, 6, 6)
     elif kind == 'conv1':
         net = nn.Sequential(nn.Conv2d(16, C, 1), nn.ReLU(), nn.AdaptiveAvgPool2d(1), nn.Flatten(), nn.Linear(C, 4))
         shape = (16, 5, 5)
@@ -77,7 +93,7 @@ def build_mps(torch, C, precs, seed, kind, counts=None):
     else:
         net = nn.Sequential(nn.Flatten(), nn.Linear(48, C), nn.ReLU(), nn.Linear(C, 4))
         shape = (3, 4, 4)
-    m = MPS(net, input_shape=shape, cost={'ne16': ne16_latency}, w_search_type=MPSType.PER_CHANNEL, qinfo=get_default_qinfo(precs, (8,)))
+    m = MPS(net, input_shape=shape, cost={'ne16': ne16_latency}, w_search_type=MPSType.PER_CHANNEL, qinfo=get_default_qinfo(precs, (8,)), **mps_kw)
     g = torch.Generator().manual_seed(seed)
     with torch.no_grad():
         for n, p in m.named_nas_parameters():
@@ -207,13 +223,35 @@ def run(ctx):
             z = ctx.rng.randint(1, C // 3)
             a2 = ctx.rng.randint(0, C - z)
             crafted.append((C, (0, 2, 4, 8), ctx.rng.choice(['conv3only', 'conv3pair']), (z, 0, a2, C - z - a2)))
-    configs = [c + (None,) for c in configs] + crafted
-    for idx, (C, precs, kind, counts) in enumerate(configs):
+    configs = [c + (None, {}) for c in configs] + [c + ({},) for c in crafted]
+    # the options a search leaves the model with: weight selectors not shared inside a sharing group (residual add, conv ->
+    # depthwise), the Gumbel sampler with the model put in inference mode (deterministic there), training vs inference mode
+    optioned = [(64, (2, 4, 8), 'dw', None, {'disable_shared_quantizers': True}), (64, (2, 4, 8), 'dw', (40, 24, 0), {'disable_shared_quantizers': True}),
+                (32, (2, 4, 8), 'res', None, {'disable_shared_quantizers': True}), (64, (0, 2, 4, 8), 'res', None, {'disable_shared_quantizers': True}),
+                (64, (2, 4, 8), 'conv3', None, {'gumbel_softmax': True, 'mode': 'eval'}), (32, (2, 4, 8), 'conv3only', (20, 12, 0), {'gumbel_softmax': True, 'mode': 'eval'}),
+                (64, (2, 4, 8), 'conv3', None, {'mode': 'eval'}), (64, (2, 4, 8), 'res', None, {'disable_shared_quantizers': True, 'temperature': 5.0})]
+    if not ctx.quick:
+        for _ in range(24):
+            o = {}
+            if ctx.rng.random() < 0.5:
+                o['disable_shared_quantizers'] = True
+            r = ctx.rng.random()
+            if r < 0.3:
+                o.update(gumbel_softmax=True, mode='eval')
+            elif r < 0.5:
+                o['mode'] = 'eval'
+            if ctx.rng.random() < 0.3:
+                o['temperature'] = ctx.rng.choice([0.5, 2.0, 5.0])
+            optioned.append((ctx.rng.choice([32, 64]), ctx.rng.choice([(2, 4, 8), (0, 2, 4, 8), (2, 8)]), ctx.rng.choice(['dw', 'res', 'conv3', 'conv3pair']), None, o))
+    configs += optioned
+    for idx, (C, precs, kind, counts, opts) in enumerate(configs):
         seed = ctx.seed * 1000 + idx
-        rec = {'C': C, 'precisions': list(precs), 'kind': kind, 'seed': seed, 'start_counts': counts, 'layers': {}}
+        rec = {'C': C, 'precisions': list(precs), 'kind': kind, 'seed': seed, 'start_counts': counts, 'options': opts, 'layers': {}}
         ascending = list(precs) == sorted(precs)
         try:
-            m = build_mps(torch, C, precs, seed, kind, counts)
+            m = build_mps(torch, C, precs, seed, kind, counts, **{k: v for k, v in opts.items() if k != 'mode'})
+            if opts.get('mode') == 'eval':
+                m.eval()
             m.update_softmax_options(hard=True)
             m(m._input_example)
             layers = per_channel_layers(m)
@@ -262,7 +300,7 @@ def run(ctx):
             oracle(False, 'refine-raises-exception', {k: v for k, v in rec.items() if k != 'layers'})
         B.append(rec)
         changed = any(d['counts_before'] != d['counts_after'] for d in rec['layers'].values())
-        ctx.case(('B', C, precs, kind, seed, counts), nontrivial=changed, kind='refine:%s:%s%s' % (kind, 'x'.join(map(str, precs)), ':crafted' if counts else ''),
+        ctx.case(('B', C, precs, kind, seed, counts, repr(sorted(opts.items()))), nontrivial=changed, kind='refine:%s:%s%s%s' % (kind, 'x'.join(map(str, precs)), ':crafted' if counts else '', ':' + '+'.join(sorted(opts)) if opts else ''),
                  sample={k: v for k, v in rec.items() if k != 'layers'})
 
     for key, info in fails:
